@@ -257,19 +257,23 @@ fn client_case(ctx: &mut Ctx, rng: &mut Rng, key_spec: &wire::KeySpec) {
     if w.sim.awaiting_count() == 0 {
         w.do_send(ctx, rng);
     }
-    let cred = w.sim.client.verif_snapshot().cred_state;
-    let tag = if cred.contains("SubsequentRequest") {
-        "lt-authenticated"
-    } else if cred.contains("Retry(Unauthenticated)") {
-        "lt-after-401"
-    } else if cred.contains("Retry(StaleNonce)") {
-        "lt-after-438"
-    } else if cred.contains("FirstRequest") {
-        "lt-first"
-    } else if cred.contains("short-term") {
-        if cred.contains("integrity=None") { "st-unlearned" } else { "st-learned" }
-    } else {
-        "none"
+    // credential state as observed at the boundary (which exchanges took place), not read from
+    // the hook's Debug string, so that an internal rename cannot starve these counters
+    let tag = match &w.sim.cfg.mech {
+        Mech::None => "none",
+        Mech::ShortTerm(pre) => {
+            if pre.is_some() || w.cred.agreed.is_some() {
+                "st-learned"
+            } else {
+                "st-unlearned"
+            }
+        }
+        Mech::LongTerm => match w.cred.phase {
+            crate::cred::LtPhase::First => "lt-first",
+            crate::cred::LtPhase::After401 => "lt-after-401",
+            crate::cred::LtPhase::After438 => "lt-after-438",
+            crate::cred::LtPhase::Authenticated => "lt-authenticated",
+        },
     };
     ctx.count(&format!("client.state.{}", tag));
     let deliveries = 1 + rng.below(4);
